@@ -280,6 +280,22 @@ def _op_bvp(ctx, op, state):
         e2 = _errors(P, o2[1], x2)
         if max(e2) / tol_used > ODE_ENVELOPE:
             ctx.violate("accuracy", "bvp", sig, f"second evaluation of the solution callable is off by {max(e2):.3g}")
+    if (bseed + ctx.step) % 7 == 0:
+        # how many points go into one call is the caller's business: the value at a point does not depend on its company
+        nbig = (1, 300, 2500)[(bseed // 7) % 3]
+        big = np.random.RandomState(bseed + 5).uniform(min(a, b), max(a, b), size=nbig)
+        ob = _outcome(lambda: np.atleast_2d(np.asarray(sol(big.copy()), dtype=float)))
+        if ob[0] == "raise":
+            ctx.violate("batch-size", "bvp", f"{sig}:raise", f"the solution callable raised {ob[1]!r} for {nbig} points in one call")
+        elif ob[1].shape[-1] != nbig:
+            ctx.violate("batch-size", "bvp", f"{sig}:shape", f"the solution callable returned shape {ob[1].shape} for {nbig} points")
+        else:
+            sel = np.unique(np.concatenate([np.random.RandomState(bseed).randint(nbig, size=7), [0, nbig - 1]]))
+            sub = np.atleast_2d(np.asarray(sol(big[sel].copy()), dtype=float))
+            db = float(np.max(np.abs(ob[1][:, sel] - sub))) / max(1.0, float(np.max(np.abs(sub))))
+            if not np.isfinite(db) or db > 1e-9:
+                ctx.violate("batch-size", "bvp", sig, f"the solution at the same points differs by {db:.3g} between a call with {nbig} points and a call with {len(sel)} of them")
+        ctx.probes.hit("solution-evaluated-at-%d-points" % nbig)
     if not derivs:
         # a scalar point must give the same value as a one-element array (the closure has a branch for it)
         xs = float(xc[7])
